@@ -1251,6 +1251,11 @@ func (cw *ColWip) writeNonDeBloom(buf []byte, bi *BloomIndex, numRecs uint16,
 	}
 
 	bloomSize := bi.uniqueWordCount
+	if bloomSize == 0 {
+		// With an estimate of 0 NewWithEstimates computes the number of hash functions from 0/0 and returns a filter
+		// with 2^63 of them: the next add to it (e.g. when the column is converted to strings) never returns.
+		bloomSize = 1
+	}
 	bi.Bf = bloom.NewWithEstimates(uint(bloomSize), BLOOM_COLL_PROBABILITY)
 	bi.uniqueWordCount = 0
 
